@@ -197,7 +197,10 @@ func (c *conn) handleSubscribe(in *inEnvelope) error {
 		c.logger.FinishExecution(ctx, tags, time.Since(start))
 
 		if err != nil {
-			if ErrorCause(err) == context.Canceled {
+			// Only a run whose own context has ended was cancelled; a resolver that
+			// returns context.Canceled of its own (a private sub-context) has failed
+			// and is reported like any other failure.
+			if ErrorCause(err) == context.Canceled && ctx.Err() != nil {
 				go c.closeSubscriptionIfCurrent(id, &self)
 				return nil, err
 			}
